@@ -45,19 +45,38 @@ def run(ctx):
         allfiles.append(["bystander.dat", vh.hexs("do not touch")])
         cases.append({"op": "files", "src_hex": vh.hexs(src), "files": allfiles, "search": [f for f, _ in files], "mode": mode})
         meta.append((src, kind, mode, files, stale))
+    # large files: long unmatched stretches before, between and after sparse matches (the copy loop reads gaps and tail in one piece,
+    # through the 4096-byte window of the buffered reader)
+    def big(n, marks):
+        b = bytearray(rng.choice(b"xyz.- \n") for _ in range(n))
+        for off in marks:
+            b[off:off + 6] = b"needle"
+        return bytes(b).decode("latin-1")
+    bigs = [big(28000, [14000]), big(9000, [100]), big(9000, [8990]), big(20000, [5000, 15000]), big(12289, []), big(4097, [4091]), big(8192, [4093, 8186]),
+            big(30000, [10, 29990]), big(16384, [6000])]
+    for content in (bigs if not quick else rng.sample(bigs, 5) + [bigs[0]]):
+        for mode in ("NEW", "OVERWRITE", "NOTHING"):
+            for src in ("replace all 'needle' with 'N'", "replace all 'needle' with '<<' value value '>>'"):
+                if quick and rng.random() < 0.4:
+                    continue
+                files = [["big.txt", content]]
+                cases.append({"op": "files", "src_hex": vh.hexs(src), "files": [["big.txt", vh.hexs(content)], ["bystander.dat", vh.hexs("do not touch")]], "search": ["big.txt"], "mode": mode})
+                meta.append((src, "replace", mode, files, False))
     res = vh.run_cases(cases, shards=8)
     # model: what each replace command writes
     lines = []
     for i, (r, (src, kind, mode, files, stale)) in enumerate(zip(res, meta)):
         if "ast" in r and kind == "replace":
             for fi, (f, c) in enumerate(files):
+                if len(c) > 5000:
+                    continue          # large files: the Python splice is the oracle (the extracted model works in unary positions)
                 lines.append("(s%d_%d splice %s h%s (h%s))" % (i, fi, r["ast"], vh.hexs("F"), vh.hexs(c)))
     mres = model.run_model(lines, shards=8)
     ev = 0
     nt = set()
     for i, (r, (src, kind, mode, files, stale)) in enumerate(zip(res, meta)):
-        if "panic" in r or r.get("hang") or r.get("fatal"):
-            ctx.violation("RunFiles panicked / hung", {"source": src, "mode": mode, "files": files, "panic": r.get("panic")})
+        if "panic" in r or r.get("hang") or r.get("fatal") or r.get("oom"):
+            ctx.violation("RunFiles panicked / hung", {"source": src, "mode": mode, "files": [[f, c[:200] + ("... (%d bytes)" % len(c) if len(c) > 200 else "")] for f, c in files], "panic": r.get("panic")})
             continue
         if "snapshot" not in r:
             continue
@@ -80,7 +99,7 @@ def run(ctx):
             diff = {k: (expected.get(k, b"<absent>").decode("latin-1")[:80], snap.get(k, b"<absent>").decode("latin-1")[:80])
                     for k in set(snap) | set(expected) if snap.get(k) != expected.get(k)}
             ctx.violation("the directory after RunFiles is not what the mode allows (file -> (expected, found))",
-                          {"source": src, "mode": mode, "files": files, "stale_vored": stale, "difference": diff})
+                          {"source": src, "mode": mode, "files": [[f, c[:200] + ("... (%d bytes)" % len(c) if len(c) > 200 else "")] for f, c in files], "stale_vored": stale, "difference": diff})
             continue
         if kind == "replace":
             for fi, (f, c) in enumerate(files):
